@@ -125,9 +125,32 @@ def gen_history_struct(r):
     return hist
 
 
+TRIVIA = ['', '\n', '# c\n', '# c', '\n\n', '  \n', '    # x\n\n', '# a\n# b', '# a\n# b\n', '\\\n', '\f\n', 'x = 1\n', 'x = 1', 'if a:\n    b\n', '"doc"\n', 'pass  # t\n',
+          '# coding: utf-8\n', '\n# c\n\n']
+
+
+def gen_history_trivia(r):
+    """files that are (almost) nothing but prefix - comments, blank lines, white space, with or without a byte order mark - and gain or lose their only
+    statement: the end marker then carries the whole text as its prefix and its position has to be computed from it"""
+    bom = r.random() < 0.5
+    hist = []
+    for _ in range(r.randint(3, 6)):
+        t = ''.join(r.choice(TRIVIA) for _ in range(r.randint(1, 3)))
+        if bom and r.random() < 0.85:
+            t = '\ufeff' + t
+        hist.append(t)
+    nl = r.choice(['\n', '\n', '\r\n', '\r'])
+    if nl != '\n':
+        hist = [h.replace('\n', nl) for h in hist]
+    return hist
+
+
 def gen_history(r):
-    if r.random() < 0.3:
+    k = r.random()
+    if k < 0.3:
         return gen_history_struct(r)
+    if k < 0.4:
+        return gen_history_trivia(r)
     kind, code = gens.text_case(r.random(), 'c04-seed', 0, ['valid', 'corpus', 'oneliner', 'semantic'])
     from parso.utils import split_lines
     code = code[:3000]
